@@ -44,6 +44,12 @@ static void on_crash (int sig, siginfo_t *si, void *uc) {
 static void on_alarm (int sig) {
   struct itimerval it;
   if (interrupted) {
+    /* say where it is stuck: the whole C stack (it can be 10^4 frames of one recursive function), names only */
+    static void *fr[20000]; int n;
+    if (write(2, "\n#STUCK\n", 8) < 0) {}
+    n = backtrace(fr, 20000);
+    backtrace_symbols_fd(fr, n, 2);
+    if (write(2, "#STUCK-END\n", 11) < 0) {}
     if (write(out_fd, "T hard-timeout\n", 15) < 0) {}
     _exit(77);
   }
